@@ -63,3 +63,38 @@ func TestReplay(t *testing.T) {
 		}
 	}
 }
+
+// TestOne regenerates one scenario ($DRIVE_ONE) and runs it several times.
+func TestOne(t *testing.T) {
+	pj := os.Getenv("DRIVE_ONE")
+	if pj == "" {
+		t.Skip("DRIVE_ONE not set")
+	}
+	var p struct {
+		Profile string `json:"profile"`
+		Seed    uint64 `json:"seed"`
+		Idx     int    `json:"idx"`
+		MaxOps  int    `json:"max_ops"`
+		MaxSess int    `json:"max_sess"`
+		Model   string `json:"model"`
+		Reps    int    `json:"reps"`
+	}
+	if err := json.Unmarshal([]byte(pj), &p); err != nil {
+		t.Fatal(err)
+	}
+	sc := Generate(p.Profile, p.Seed, p.Idx, p.MaxOps, p.MaxSess)
+	bp := &BatchParams{Model: p.Model, CheckSizes: true}
+	for i := 0; i < p.Reps; i++ {
+		impl, _, mm, mons := runOne(t, bp, sc)
+		if mm != nil {
+			b, _ := json.Marshal(impl.Results[mm.OpIndex].Op)
+			fmt.Printf("rep %d: MISMATCH at op %d (%s) %s\n%s\n", i, mm.OpIndex, mm.What, b, mm.Detail)
+		}
+		for _, v := range mons {
+			fmt.Printf("rep %d: MONITOR %s %s\n", i, v.Property, v.What)
+		}
+		if mm == nil && len(mons) == 0 {
+			fmt.Printf("rep %d: ok\n", i)
+		}
+	}
+}
